@@ -121,9 +121,162 @@ NAMES = {P_CURR: "curr", P_LEFT: "left", P_RIGHT: "right", P_LP: "left_parent", 
          P_PARENT: "parent", P_PSLOT: "parentslot"}
 
 
+_READ_BINOPS = ("==", "!=", "<", "<=", ">", ">=", "+", "-", "*", "/", "%", "&&", "||", "&", "|", "^", "<<", ">>")
+_CASTS = ("ImplicitCastExpr", "ParenExpr", "CStyleCastExpr", "CXXStaticCastExpr", "CXXFunctionalCastExpr", "CXXConstCastExpr",
+          "CXXReinterpretCastExpr", "ExprWithCleanups", "MaterializeTemporaryExpr")
+
+
+def _only_read(fn, did, also=()):
+    """closed world: every mention of the declaration sits in a position that is known to read its value (operand of a
+    comparison / arithmetic / logical operator, right side of an assignment, p->member, p[i], *p, by-value argument of a
+    known function, initialiser of a non-reference local, returned value, condition).  Any other position (left side of
+    an assignment, ++/--, &x, reference binding, argument of an unknown callee, x.member, ...) counts as a possible write"""
+    tu = fn.tu
+    also_fns = tuple(also)
+    for root in (fn.body,) + tuple(g.body for g in also_fns):
+        parent = {}
+        for x, p in ir.walk_with_parent(root):
+            parent[id(x)] = p
+        for x in walk(root):
+            if x["k"] != "DeclRefExpr" or x["ref"]["id"] != did:
+                continue
+            c, p = x, parent.get(id(x))
+            while p is not None and p["k"] in _CASTS:
+                if p["k"] in ("CXXConstCastExpr", "CXXReinterpretCastExpr"):
+                    return False
+                c, p = p, parent.get(id(p))
+            if p is None:
+                return False
+            k = p["k"]
+            if k == "BinaryOperator" and p.get("op") in _READ_BINOPS:
+                continue
+            if k == "BinaryOperator" and p.get("op") == "=" and len(kids(p)) == 2 and kids(p)[1] is c:
+                lhs = strip_casts(kids(p)[0])
+                if lhs is not None and not (lhs.get("ty") or "").rstrip().endswith("&"):
+                    continue
+                return False
+            if k == "UnaryOperator" and p.get("op") in ("!", "-", "+", "~", "*"):
+                continue
+            if k == "MemberExpr" and p.get("arrow"):
+                continue
+            if k == "ArraySubscriptExpr":
+                continue
+            if k == "ConditionalOperator":
+                if kids(p)[0] is c or not x.get("lv") or not p.get("lv"):
+                    continue
+                return False
+            if k in ("IfStmt", "WhileStmt", "DoStmt", "ForStmt") :
+                continue
+            if k == "ReturnStmt":
+                owner = fn if root is fn.body else next((g for g in also_fns if g.body is root), None)
+                ret = ((getattr(owner, "d", None) or {}).get("ret") or "&") if owner is not None else "&"
+                if not ret.rstrip().endswith("&") and ret.strip() not in ("auto", "decltype(auto)"):
+                    continue
+                return False
+            if k == "VarDecl":
+                if p.get("isref") or (p.get("ty") or "").rstrip().endswith("&"):
+                    return False
+                continue
+            if "callee" in p and k in ("CallExpr", "CXXMemberCallExpr", "CXXOperatorCallExpr"):
+                args = kids(p)
+                i = next((j for j, a in enumerate(args) if a is c), None)
+                if i is None:
+                    return False
+                if k == "CXXMemberCallExpr" or p.get("member_call"):
+                    if i == 0:
+                        if p.get("arrow"):
+                            continue          # p->f(): the pointer is read
+                        return False
+                    i -= 1
+                elif k == "CXXOperatorCallExpr":
+                    return False
+                callee = tu.by_did.get(p["callee"].get("did")) if tu is not None else None
+                if callee is None or i >= len(callee.params):
+                    return False
+                pty = (callee.params[i].get("ty") or "").rstrip()
+                if pty.endswith("&"):
+                    return False
+                continue
+            return False
+    return True
+
+
+def _pure_arg(e):
+    """an argument that may be substituted for a parameter any number of times: no calls, no writes"""
+    for x in walk(e):
+        if "callee" in x or x["k"] in ("CompoundAssignOperator", "CXXNewExpr", "CXXDeleteExpr", "LambdaExpr", "CXXThrowExpr", "StmtExpr"):
+            return False
+        if x["k"] == "BinaryOperator" and x.get("op") in ("=", ","):
+            return False
+        if x["k"] == "UnaryOperator" and x.get("op") in ("++", "--"):
+            return False
+    return True
+
+
+def local_lambda_value(roles, n):
+    """n (casts stripped) is f(args) with f an object that has operator().  If f is a local closure declared in the same
+    function (`const auto f = [..](T a, ..) { decl* (if (c) return e;)* return e; }`) whose captures cannot differ from
+    the variables at the call, the returned expression with the parameters replaced by the arguments; everything else is
+    Undecidable (the generic helper inlining of the decision table does not know that the first operand of an
+    operator() call is the object)"""
+    fn = roles.fn
+    fc = match.functor_call(n)
+    here = "%s" % fn.nloc(n) if hasattr(fn, "nloc") else "line %s" % n.get("l")
+
+    def und(what):
+        return dtable.Undecidable("%s: %s: %s" % (here, what, dtable.describe(n)[:120]))
+    obj = strip_casts(fc[0])
+    d = ref_of(obj)
+    if d is None or d not in roles.inits or d in roles.assigns:
+        raise und("call of a function object that is not a local closure")
+    lam = match.strip_conv(roles.inits[d])
+    if lam is None or lam["k"] != "LambdaExpr" or "fn" not in lam or lam["fn"] != n["callee"].get("did"):
+        raise und("call of a function object that is not a local closure")
+    callee = fn.tu.by_did.get(lam["fn"])
+    if callee is None or callee.body is None:
+        raise und("body of the closure not available")
+    args = [a for a in fc[1]]
+    if len(args) != len(callee.params) or any(a is None or a["k"] == "DefaultArg" or not _pure_arg(a) for a in args):
+        raise und("arguments of the closure call not understood")
+    for c in lam.get("captures") or []:
+        if c.get("name") == "this":
+            if not c.get("byref"):
+                raise und("closure with a copy of *this")
+            continue
+        if "id" not in c:
+            raise und("closure capture not understood")
+        # a by-reference capture names the variable itself; a by-value capture equals it as long as nobody writes it
+        if not c.get("byref") and not _only_read(fn, c["id"], (callee,)):
+            raise und("closure captures a copy of a variable that is written")
+    for p_ in callee.params:
+        if not _only_read(callee, p_["did"]):
+            raise und("closure modifies its parameter")
+    sub = dtable.stmts_as_expr(kids(callee.body), {p_["did"]: a for p_, a in zip(callee.params, args)})
+    if sub is None:
+        raise und("body of the closure is not a chain of returns")
+    return sub
+
+
+def with_local_lambdas(atomize, roles):
+    """atomizer that evaluates the call of a local closure (a predicate written as a lambda in the same function) by the
+    value of its body; other calls of function objects that the rule's atomizer does not know are Undecidable"""
+    def wrapped(n, run):
+        r = atomize(n, run)
+        if r is not None:
+            return r
+        m = strip_casts(n)
+        if m is not None and m["k"] == "CXXOperatorCallExpr" and match.functor_call(m) is not None:
+            return bool(run.truth(local_lambda_value(roles, m)))
+        return None
+    return wrapped
+
+
 def underflow_atomize(roles):
     """atoms: ('null', side) ('few', side) ('eq', a, b) for parent pointers, ('le', a, b) for fill levels"""
     def atomize(n, run):
+        if match.functor_call(n) is not None:
+            # sibling predicate written as a local lambda: its value is the value of its body at the call
+            return bool(run.truth(local_lambda_value(roles, strip_casts(n))))
         # `if (p)` / `!p`: the pointer-to-bool conversion sits in the cast layers that strip_casts removes
         pt, m = None, n
         while m is not None and pt is None and m["k"] in ("ImplicitCastExpr", "ParenExpr") and kids(m):
